@@ -80,6 +80,7 @@ type GenesisOpts struct {
 	AbsGen      M                 `json:"absgen"`    // an abstract genesis value of spec/GenesisMC.tla for the three custom modules
 	PrevRelease bool              `json:"prev"`      // SDK-module state as the previous release's upgrade handler (v2.2.0) left it: staking MinCommissionRate = 3% while
 	                                                 // validators created before that still have lower rates (and max rates / change rates that forbid raising them)
+	DropGen     []string          `json:"dropgen"`   // genesis sections left out of the file (legal for modules whose genesis is empty, e.g. "upgrade")
 	SimFirst    bool              `json:"simfirst"`  // every delivered transaction is first simulated (gas estimation), as clients do
 	OldReads    bool              `json:"oldreads"`  // before the views of a step are taken, the same point queries are served at the previous committed height
 	Upper       []string          `json:"upper"`     // accounts whose address is spelled in upper case in custom-module message fields
@@ -378,6 +379,9 @@ func (c *Chain) buildGenesis() (json.RawMessage, error) {
 	}
 	for mod, js := range c.Opts.CustomGen {
 		gs[mod] = json.RawMessage(js)
+	}
+	for _, mod := range c.Opts.DropGen {
+		delete(gs, mod)
 	}
 	return json.MarshalIndent(gs, "", " ")
 }
